@@ -419,6 +419,9 @@ def r17_7(ctx: Ctx):
 
 
 def check(ctx: Ctx):
+    if C.want(ctx, 'R17.8'):
+        from . import evo as _evo
+        _evo.rule_no_shared_state(ctx, 'R17.8')
     if C.want(ctx, 'R17.7'):
         r17_7(ctx)
     if C.want(ctx, 'R17.6'):
